@@ -69,10 +69,20 @@ class Case:
         return "".join(x.name for x in self.targets)
 
 
+def has_table(o):
+    """does the object have a block table (False also if computing it raises:
+    the exception is then observed by the correspondence stages)"""
+    if o.sympy.is_number:
+        return False
+    try:
+        return o.allowed_spin_blocks is not None
+    except Exception:       # noqa
+        return False
+
+
 def classify(term, tm_keys):
     """structural class of a term w.r.t. the three known defects"""
-    tabled = [o for o in term.objects
-              if not o.sympy.is_number and o.allowed_spin_blocks is not None]
+    tabled = [o for o in term.objects if has_table(o)]
     idx = set(term.idx)
     if idx and not tabled:
         return "no-table"
@@ -295,7 +305,10 @@ def stage_integrate(ctx, tabs, cases):
                     f"rbind (integrate_atoms {fx} ITAB {tm} "
                     f"{U.coq_atoms(atoms)}) (fun l => Ok (map (assign_list "
                     f"{lst}) l))")
-            coq_cases.append(f"iset_eqb {lst} (atoms_idx {U.coq_atoms(atoms)})")
+            coq_cases.append(
+                f"(iset_eqb {lst} (atoms_idx {U.coq_atoms(atoms)}), "
+                f"match sobjs_of ITAB {U.coq_atoms(atoms)} with "
+                f"Ok objs => wf_objs_b objs | Err _ => false end)")
             rows.append((cs, spins, ob, term, tidx_sym, tidx, tgc, ictx))
     vals, _ = ctx.coq_eval("integrate", coq_cases, header=U.COQ_HEADER,
                            defs=itab_def, shard=240)
@@ -305,7 +318,8 @@ def stage_integrate(ctx, tabs, cases):
             enumerate(rows):
         m_impl = U.parse_res(vals[3 * n])
         m_fix = U.parse_res(vals[3 * n + 1])
-        idx_ok = vals[3 * n + 2] == "true"
+        idx_ok = (vals[3 * n + 2] or "").replace(" ", "").startswith("(true,")
+        wf_ok = (vals[3 * n + 2] or "").replace(" ", "").endswith(",true)")
         label = f"{cs.label}[{spins}]"
         # --- observed
         if ob.exc is not None and not ob.exc_in_simplify:
@@ -325,8 +339,7 @@ def stage_integrate(ctx, tabs, cases):
         same_impl = (py == mi)
         same_fix = (ms(py) == ms(mf))
         n_con = len([x for x in tidx if x not in tgc])
-        n_tab = len([o for o in term.objects if not o.sympy.is_number
-                     and o.allowed_spin_blocks is not None])
+        n_tab = len([o for o in term.objects if has_table(o)])
         ctx.case(key=(str(cs.sym), cs.names, spins, "integrate"),
                  nontrivial=(n_con >= 1 or n_tab >= 2),
                  sample={"label": label, "term": str(cs.sym)[:200],
@@ -336,6 +349,8 @@ def stage_integrate(ctx, tabs, cases):
                  kind=f"integrate:objs{min(len(term.objects), 5)}:"
                       f"tg{len(spins)}")
         ctx.obligation(f"term indices == model atoms_idx {label}", idx_ok)
+        ctx.obligation(f"hypothesis wf_objs of the theorems holds {label}",
+                       wf_ok, "wf_objs_b = false")
         # the implementation must follow the model of the code as it is, or
         # the model with the patches of the findings applied
         if not ctx.obligation(f"integrate_spin variants == model {label}",
@@ -360,6 +375,7 @@ def stage_integrate(ctx, tabs, cases):
         # --- value check (failing-input search / validation of the model)
         bad = None
         if ob.exc is None:
+            check_targets(ctx, cs, spins, ob.result, spins, "integrate_spin")
             bad = value_check(ctx, cs, spins, ob.result, tabs)
         elif ob.exc_in_simplify:
             k = "simplify-raises(TODO in source: polynoms)"
@@ -411,6 +427,28 @@ def stage_integrate(ctx, tabs, cases):
     stats.pop("class", None)
     stats["rows"] = len(rows)
     ctx.extra["integrate_stats"] = stats
+
+
+def check_targets(ctx, cs, spins, result, out_spins, what):
+    """the target indices of the result are the input targets with the
+    requested spins (all alpha for a restricted reference)"""
+    if not cs.provided:
+        ok = result.provided_target_idx is None
+        exp = None
+    else:
+        exp = tuple(sorted(get_symbols(cs.names, out_spins),
+                           key=sort_idx_canonical)) if cs.targets else ()
+        got = result.provided_target_idx
+        ok = got is not None and tuple(got) == exp
+    if not ctx.obligation(f"target indices of the result of {what} "
+                          f"{cs.label}[{spins}]", ok,
+                          f"{result.provided_target_idx} expected {exp}"):
+        ctx.violation(
+            f"C15:result-targets:{cs.label}:{spins}:{what}",
+            f"{what} returns an expression with wrong target indices",
+            {"term": str(cs.sym), "targets": cs.names, "spins": spins,
+             "got": str(result.provided_target_idx), "expected": str(exp)},
+            True)
 
 
 def value_check(ctx, cs, spins, result, tabs, restricted=False,
@@ -782,6 +820,9 @@ def stage_pipeline(ctx, tabs, cases, quick):
             continue
         if py[0] != "ok":
             continue
+        check_targets(ctx, cs, spins, py[1],
+                      "a" * len(spins) if restricted else spins,
+                      f"transform {mode}")
         bad = value_check(ctx, cs, spins, py[1], tabs, restricted=restricted,
                           eri_from_coulomb=expand)
         if not same_fix:
